@@ -11,6 +11,7 @@ sites = re.findall(r'⟨(\d+), "([^"]*)", "([^"]*)", "([^"]*)", "([^"]*)"⟩', s
 # (kind, func[, detail-prefix]) -> (list, note)
 M, I, O = 'modelled', 'provedIrrelevant', 'outOfPath'
 FM, FF, FO = 'flagsModelled', 'flagsHeldFixed', 'flagsInUninterpreted'
+PS = 'processLocalAccounted'
 rules = [
  (('maprange', 'ChangeAssets'), M, 'keys collected, then sort.Strings (fix:) — changeAssets_order_irrelevant'),
  (('maprange', 'RefundManager.Add'), M, 'refund_add_order_irrelevant'),
@@ -55,17 +56,55 @@ rules = [
  (('flag', 'MinerManager.UpdateMiner', 'IsProposal003'), FF, 'status byte written (active)'),
  (('flag', 'AccountDB.AddFT', 'IsProposal002'), FF, 'journaled vs raw write in the ERC20-binding path; same content'),
  (('flag', 'AccountDB.SubFT', 'IsProposal002'), FF, 'idem'),
+
+ # process-local state on the execution path (second pass: functions reachable from VMExecutor.Execute)
+ (('global', None, 'common.LocalChainConfig'), PS, 'fork table / chain config fixed at start-up; together with localChainInfo it yields the flags (known finding flags-from-process-chain-height)'),
+ (('global', None, 'common.localChainInfo'), PS, 'process-wide chain height behind every IsProposalNNN: the recorded known finding (Props/C01B)'),
+ (('global', None, 'common.Genesis'), PS, 'sub-chain configuration read once from genesis.json at start-up; nil on the main chain'),
+ (('global', None, 'common.rewardBlocks'), PS, 'memoised constant rewardTime / castingInterval'),
+ (('global', None, 'common.refundBlocks'), PS, 'memoised constant'),
+ (('global', None, 'common.epochBlocks'), PS, 'memoised constant'),
+ (('global', None, 'service.MinerManagerImpl'), PS, 'singleton handle assigned at start-up; its mutable side store is listed as store sites (pkCache)'),
+ (('global', None, 'service.RewardCalculatorImpl'), PS, 'singleton handle; holds chain helpers only'),
+ (('global', None, 'service.RefundManagerImpl'), PS, 'singleton handle; holds chain helpers only'),
+ (('global', None, 'service.txpoolInstance'), PS, 'singleton handle; ProcessFee touches only the AccountDB passed in'),
+ (('global', None, 'executor.txExecutorsImpl'), PS, 'static executor registry built by InitExecutors'),
+ (('global', None, 'middleware.AccountDBManagerInstance'), PS, 'reached only through nil-accountdb fall-backs (GetLatestStateDB) that the executor never takes: it always passes its AccountDB'),
+ (('global', None, 'core.blockChainImpl'), PS, 'context["chain"] (BLOCKHASH) and calcDifficulty second part: chain data below the block = part of the parent history, not modelled'),
+ (('global', None, 'core.groupChainImpl'), PS, 'group lookup for the reward: replicated group-chain data (model input RewardCfg.group)'),
+ (('global', None, 'core.SyncProcessor'), PS, 'fork-path chain helper (same data, other handle)'),
+ (('global', None, 'account.rpgContractAddress'), PS, 'cache of the RPG ERC20 binding, a genesis-time constant of the state (AddERC20Binding is only called by genesis); re-read while zero'),
+ (('store', None, 'mm.pkCache.Put'), PS, 'write-only on the execution path: no function reachable from Execute reads pkCache (a read would be a new store site)'),
+ (('store', None, 'chain.heightDB.Get'), PS, 'QueryBlockHeaderByHeight in calcDifficulty second part: header of an ancestor block (chain history, not modelled part)'),
+ (('store', None, 'chain.topBlocks.Get'), PS, 'idem (LRU in front of heightDB)'),
+ (('store', None, 'fork.db.Get'), PS, 'fork-path lookup of ancestor blocks / groups: same replicated data through the fork store'),
+ (('store', None, 'chain.groups.Get'), PS, 'group chain lookup for the reward (RewardCfg.group)'),
+ (('store', None, 'txExecutorsImpl.executors[]'), PS, 'static executor registry'),
+ (('ctx', None, 'write refund'), PS, 'prepare(): context["refund"] reset at the start of every execution (Loop.refunds starts empty)'),
+ (('ctx', None, 'read refund'), PS, 'set by prepare() in this execution'),
+ (('ctx', None, 'read chain'), PS, 'set by newVMExecutor'),
+ (('ctx', None, 'read situation'), PS, 'set by newVMExecutor; only selects which group helper answers'),
+ (('ctx', None, 'write contractData'), PS, 'BeforeExecute of the same transaction'),
+ (('ctx', None, 'read contractData'), PS, 'written by BeforeExecute of the same transaction'),
+ (('ctx', None, 'write logs'), PS, 'executor output of this transaction'),
+ (('ctx', None, 'read logs'), PS, 'pre-Proposal013 receipts; deleted after every transaction'),
+ (('ctx', None, 'delete logs'), PS, 'idem'),
+ (('ctx', None, 'write contractAddress'), PS, 'executor output'),
+ (('ctx', None, 'read contractAddress'), PS, 'deleted after use'),
+ (('ctx', None, 'delete contractAddress'), PS, 'idem'),
+ (('ctx', None, 'write gasUsed'), PS, 'executor output'),
+ (('ctx', None, 'read gasUsed'), PS, 'never deleted: a later transaction of the SAME block sees the previous value (deterministic: the context map is new per execution; part of OpaqueOut.extra)'),
 ]
 def classify(s):
     k, kind, f, fn, det = s
     for key, lst, note in rules:
-        if key[0] == kind and key[1] == fn and (len(key) < 3 or det.startswith(key[2])):
+        if key[0] == kind and (key[1] is None or key[1] == fn) and (len(key) < 3 or det.startswith(key[2])):
             return lst, note
     if kind == 'flag' and (f.startswith('src/vm/') or f.endswith('contract_executor.go')):
         return FO, 'inside Env.other (EVM / contract executor): part of the uninterpreted deterministic step, which therefore also depends on the process height'
     return None, None
 
-lists = {M: [], I: [], O: [], FM: [], FF: [], FO: []}
+lists = {M: [], I: [], O: [], FM: [], FF: [], FO: [], PS: []}
 missing = []
 for s in sites:
     lst, note = classify(s)
@@ -81,6 +120,7 @@ docs = {
  FM: 'proposal-flag reads that are fields of `Flags` (quantified in every theorem; `flagsAt` derives them from the process-wide height, see Props/C01B)',
  FF: 'proposal-flag reads in interpreted code whose value the model holds fixed (stated assumption of the correspondence: harness runs them active)',
  FO: 'proposal-flag reads inside the uninterpreted executors',
+ PS: 'process-local state touched by functions reachable from VMExecutor.Execute (run-time-assigned package variables, side stores in struct fields of core/service/executor/middleware types, context entries), each with the reason it cannot make two replicas differ — or the recorded finding it belongs to',
 }
 def block(name):
     rows = lists[name]
@@ -104,13 +144,20 @@ reviewed classification table; it is never rewritten by bin/check.)
 namespace Rangers.Props.C01Sites
 open Rangers.Generated.NondetSites
 
-''' + ''.join(block(n) for n in (M, I, O, FM, FF, FO)) + '''def accounted : List Nat := modelled ++ provedIrrelevant ++ outOfPath ++ flagsModelled ++ flagsHeldFixed ++ flagsInUninterpreted
+set_option maxRecDepth 20000
 
-theorem sites_accounted : ∀ k ∈ siteKeys, k ∈ accounted := by
+''' + ''.join(block(n) for n in (M, I, O, FM, FF, FO, PS)) + '''def accounted : List Nat := modelled ++ provedIrrelevant ++ outOfPath ++ flagsModelled ++ flagsHeldFixed ++ flagsInUninterpreted ++ processLocalAccounted
+
+theorem sites_accounted_bool : siteKeys.all (fun k => accounted.contains k) = true := by
   decide
 
+theorem sites_accounted : ∀ k ∈ siteKeys, k ∈ accounted := by
+  intro k hk
+  have := List.all_eq_true.mp sites_accounted_bool k hk
+  simpa using this
+
 /-- the sites the model folds over still exist in the source (a vanished site means a stale model) -/
-theorem modelled_sites_exist : ∀ k ∈ modelled ++ flagsModelled, k ∈ siteKeys := by
+theorem modelled_sites_exist : (modelled ++ flagsModelled).all (fun k => siteKeys.contains k) = true := by
   decide
 
 /-- the generated key list is the key column of the generated table -/
@@ -123,6 +170,13 @@ theorem flag_reads_pinned :
       (fun k => (flagsModelled ++ flagsHeldFixed ++ flagsInUninterpreted ++ outOfPath).contains k) = true := by
   decide
 
+/-- every process-local state access found on the execution path is one of the classified ones -/
+theorem process_local_reads_pinned :
+    ((sites.filter (fun s => s.kind == "global" || s.kind == "store" || s.kind == "ctx")).map (·.key)).all
+      (fun k => processLocalAccounted.contains k) = true := by
+  decide
+
+example : processLocalAccounted ≠ [] := by decide
 example : siteKeys ≠ [] := by decide
 example : flagsModelled ≠ [] := by decide
 
